@@ -3,6 +3,7 @@ use std::fs;
 use std::path::{Path, PathBuf};
 
 use ast::ast;
+use diagnostics::{Diagnostic, Diagnostics};
 
 use crate::hir::SourceFileAst;
 use crate::pipeline::compile_error;
@@ -81,6 +82,46 @@ fn collect_imports(files: &[SourceFileAst]) -> HashSet<String> {
         .collect()
 }
 
+// Parser and lowering diagnostics carry ranges into the text they were produced from, but the
+// callers of the pipeline only hold the entry file's text. For every other file of a package the
+// position is therefore resolved here and moved, with the file name, into the message.
+fn attribute_to_file(err: CompilationError, path: &Path, src: &str) -> CompilationError {
+    let index = line_index::LineIndex::new(src);
+    let relocate = |diagnostics: Diagnostics| {
+        let mut out = Diagnostics::new();
+        for diagnostic in diagnostics {
+            let message = match diagnostic.range() {
+                Some(range) => {
+                    let line_col = index.line_col(range.start());
+                    format!(
+                        "{}:{}:{}: {}",
+                        path.display(),
+                        line_col.line + 1,
+                        line_col.col + 1,
+                        diagnostic.message()
+                    )
+                }
+                None => format!("{}: {}", path.display(), diagnostic.message()),
+            };
+            out.push(Diagnostic::new(
+                diagnostic.stage().clone(),
+                diagnostic.severity(),
+                message,
+            ));
+        }
+        out
+    };
+    match err {
+        CompilationError::Parser { diagnostics } => CompilationError::Parser {
+            diagnostics: relocate(diagnostics),
+        },
+        CompilationError::Lower { diagnostics } => CompilationError::Lower {
+            diagnostics: relocate(diagnostics),
+        },
+        other => other,
+    }
+}
+
 fn load_package(
     package_dir: &Path,
     entry_path: Option<&Path>,
@@ -106,7 +147,7 @@ fn load_package(
         }
         let src = fs::read_to_string(&path)
             .map_err(|err| compile_error(format!("failed to read {}: {}", path.display(), err)))?;
-        let ast = parse_ast_file(&path, &src)?;
+        let ast = parse_ast_file(&path, &src).map_err(|err| attribute_to_file(err, &path, &src))?;
         if let Some(existing) = &package_name {
             if &ast.package.0 != existing {
                 return Err(compile_error(format!(
